@@ -543,3 +543,75 @@ def fits(target, value):
     if any(r is False for r in res):
         return False
     return True if all(r is True for r in res) else None
+
+
+# ---------------------------------------------------------------------------------------------------
+# propositional reasoning over extracted guards: atoms = maximal non-boolean-connective subterms (signals, comparisons), keyed canonically
+def expand_term(v, t_, depth=8):
+    """term with every single-definition comb signal replaced by its definition (bounded)"""
+    if depth == 0:
+        return t_
+    if isinstance(t_, Op):
+        return Op(t_.op, tuple(expand_term(v, a_, depth) for a_ in t_.args))
+    if isinstance(t_, (Obj, Sym)):
+        d_ = v.single_comb_def(t_)
+        if d_ is not None:
+            return expand_term(v, d_, depth - 1)
+    return t_
+
+
+def bool_atoms(t, acc=None):
+    acc = set() if acc is None else acc
+    a, _ = literal(t)
+    if isinstance(a, Op) and a.op in ("&", "|", "and", "or", "^"):
+        for x in a.args:
+            bool_atoms(x, acc)
+    elif isinstance(a, Const):
+        pass
+    else:
+        acc.add(key(a))
+    return acc
+
+
+def bool_val(t, env):
+    a, p = literal(t)
+    if isinstance(a, Op) and a.op in ("&", "and"):
+        r = all(bool_val(x, env) for x in a.args)
+    elif isinstance(a, Op) and a.op in ("|", "or"):
+        r = any(bool_val(x, env) for x in a.args)
+    elif isinstance(a, Op) and a.op == "^":
+        r = False
+        for x in a.args:
+            r ^= bool_val(x, env)
+    elif isinstance(a, Const):
+        r = bool(a.v)
+    else:
+        r = env[key(a)]
+    return r if p else (not r)
+
+
+def implies(premises, consequents, max_atoms=18):
+    """Truth-table check: under every assignment of the atoms that makes all `premises` true, are all `consequents` true?
+    -> (True, None) | (False, counterexample {atom: bool}) | (None, reason) when there are too many atoms.
+    Atoms are treated as independent (sound for refutation only when the counterexample is consistent: callers pass mutual-exclusion facts
+    as extra premises where needed)."""
+    import itertools
+    atoms = set()
+    for t in list(premises) + list(consequents):
+        bool_atoms(t, atoms)
+    atoms = sorted(atoms)
+    if len(atoms) > max_atoms:
+        return None, "too many atoms (%d)" % len(atoms)
+    for bits in itertools.product((False, True), repeat=len(atoms)):
+        env = dict(zip(atoms, bits))
+        if all(bool_val(p, env) for p in premises) and not all(bool_val(c, env) for c in consequents):
+            return False, {k_: v_ for k_, v_ in env.items()}
+    return True, None
+
+
+def leaf_cond(leaf):
+    """the condition under which a leaf assigns a true value to a 1-bit target: its guards AND (for a non-constant value) the value"""
+    ts = [c if p else Op("~", (c,)) for c, p in leaf.guards]
+    if leaf.value is not None and isinstance(leaf.value, V) and not is1(leaf.value):
+        ts.append(leaf.value)
+    return ts
